@@ -10,6 +10,7 @@
 #include <eventpp/eventpolicies.h>
 
 #include <atomic>
+#include <cstring>
 #include <chrono>
 #include <condition_variable>
 #include <functional>
@@ -136,8 +137,14 @@ public:
 
 	// ---- scheduling point
 
+	// Hook tags with this prefix never preempt. Needed where the library synchronises with a real std::mutex that the
+	// Threading policy cannot replace (the per-prototype lists inside HeterCallbackList always use the default policy):
+	// preempting inside such a critical section would block the next thread in the kernel while it holds the baton.
+	std::string noPreemptPrefix;
+
 	void point(const char * tag) {
 		if(! active()) return;
+		if(! noPreemptPrefix.empty() && strncmp(tag, noPreemptPrefix.c_str(), noPreemptPrefix.size()) == 0) return;
 		++step;
 		++points;
 		Th & me = *th[self()];
